@@ -194,7 +194,7 @@ LIBC_KNOWN = {'malloc', 'free', 'realloc', 'calloc', 'memcpy', 'memmove', 'memse
 
 
 class Tr:
-    def __init__(self, text, ubchk=False, acc_prefixes=(), co=False, yield_prims=(), nthr_macro='VF_NTHR', lifetime_havoc=False, racy_yield=False):
+    def __init__(self, text, ubchk=False, acc_prefixes=(), co=False, yield_prims=(), nthr_macro='VF_NTHR', lifetime_havoc=False, racy_yield=False, step_prune=False, static_new=False):
         self.types = {}
         self.globals = {}
         self.decls = {}
@@ -209,6 +209,9 @@ class Tr:
         self.nthr_macro = nthr_macro
         self.lifetime_havoc = lifetime_havoc
         self.racy_yield = racy_yield
+        self.step_prune = step_prune
+        self.static_new = static_new
+        self.snew = []
         self.racy_fields = set()
         self.defined = set()
         self.cur_co = False
@@ -765,8 +768,12 @@ class Tr:
             if init is not None:
                 gdefs.append('%s %s = %s;' % (ct, self.cid(n), self.cinit(init, t)))
         ginits += gdefs
+        self.cfgs = {}
         fbodies = [self.emit_func(f) for f in self.funcs]
         fbodies = [re.sub(r'/\*ICALL(\d+)\*/', self.expand_icall, b) for b in fbodies]
+        dist = self.step_distances() if (self.step_prune and self.co_enabled) else {}
+        PR = 'if (vf_steps < %d) { __CPROVER_assert(0, "INTERNAL: resume point entered before its static minimum step"); __CPROVER_assume(0); }'
+        fbodies = [re.sub(r'/\*DIST:(\w+):(\d+)\*/', lambda m: (PR % dist[(m.group(1), int(m.group(2)))]) if (m.group(1), int(m.group(2))) in dist else '', b) for b in fbodies]
         protos = []
         for n, ft in self.decls.items():
             if n.startswith('@llvm.') or n in self.defined:
@@ -829,6 +836,18 @@ class Tr:
                 emit_t(ast.literal_eval(key))
         o = ['#include <stdint.h>', '#include <stddef.h>', '#include <string.h>', '#include <stdlib.h>', '#include "vf_rt.h"']
         o += ['struct T_%s;' % self.cid(n) for n in self.types]
+        if self.static_new:
+            protos.append('uint64_t nondet_ulong(void);')
+            sd = ['void __vf_sdel(void *p) { if (!p) return;']
+            for i, n in enumerate(self.snew):
+                w = (n + 7) // 8
+                protos.append('static uint64_t snew_buf_%d[%d]; static _Bool snew_live_%d;' % (i, w, i))
+                protos.append('void *__vf_snew_%d(void) { __CPROVER_assert(!snew_live_%d, "BOUND: at most one live object per allocation site"); __CPROVER_assume(!snew_live_%d); snew_live_%d = 1; '
+                              'for (int j = 0; j < %d; j++) snew_buf_%d[j] = nondet_ulong(); return (void*)snew_buf_%d; }' % (i, i, i, i, w, i, i))
+                sd.append('  if (p == (void*)snew_buf_%d) { __CPROVER_assert(snew_live_%d, "UB: delete of an object that is not alive (double delete)"); snew_live_%d = 0; '
+                          'for (int j = 0; j < %d; j++) snew_buf_%d[j] = nondet_ulong(); return; }' % (i, i, i, w, i))
+            sd.append('  __vf_free(p); }')
+            protos.append('\n'.join(sd))
         o += tdefs + protos + self.frames + ginits
         # dummy bodies for co functions so that `(void*)f` is a valid, distinct address
         for (nm, rt, ps, va, _) in self.funcs:
@@ -838,10 +857,80 @@ class Tr:
         if self.co_enabled and '@__vf_thread_entry' in self.co:
             gf = next(f for f in self.funcs if f[0] == '@__vf_thread_entry')
             o.append('void __vf_co_start(int t) { fr___vf_thread_entry[t].pc = 0; fr___vf_thread_entry[t].v_%s = (uint32_t)t; }' % self.cid(gf[2][0][1]))
-            o.append('int __vf_co_resume(void) { return __vf_thread_entry_co(); }')
+            dyn = next((f for f in self.funcs if f[0] == '@__vf_thread_entry_dyn' and f[0] in self.co), None)
+            if dyn:
+                # split roots: pre-started harness threads and threads created at run time never execute each other's code
+                # (__vf_cur is a constant inside the scheduler's switch, so symbolic execution prunes the other role)
+                # constant indices only: a store to fr[t].f with a symbolic t makes CBMC rewrite every field of every element
+                o[-1] = ('void __vf_co_start(int t) { for (int i = 0; i < %s; i++) if (i == t) { if (i < VF_PRESTART) { fr___vf_thread_entry[i].pc = 0; fr___vf_thread_entry[i].v_%s = (uint32_t)i; } '
+                         'else { fr___vf_thread_entry_dyn[i].pc = 0; fr___vf_thread_entry_dyn[i].v_%s = (uint32_t)i; } } }' % (self.nthr_macro, self.cid(gf[2][0][1]), self.cid(dyn[2][0][1])))
+                dmin = getattr(self, 'dyn_base', 0) if self.step_prune else 0
+                o.append('int __vf_co_resume(void) { if (__vf_cur < VF_PRESTART) return __vf_thread_entry_co(); if (vf_steps < %d) { __CPROVER_assert(0, "INTERNAL: created thread runs before its static minimum step"); __CPROVER_assume(0); } return __vf_thread_entry_dyn_co(); }' % dmin)
+            else:
+                o.append('int __vf_co_resume(void) { return __vf_thread_entry_co(); }')
         ctors = getattr(self, 'ctors', [])
         o.append('void __vf_global_ctors(void) { %s }' % ' '.join('%s();' % self.cid(c) for c in ctors if c in self.defined))
         return '\n'.join(o) + '\n'
+
+    def step_distances(self):
+        """static lower bound, per resume label, of the scheduler step (vf_steps) at which the label can be resumed:
+        number of definite yields (primitives, racy accesses) on a shortest path from the thread root, through call sites;
+        a resume before that step is infeasible, so symbolic execution need not explore it (checked by an INTERNAL assertion)"""
+        INF = 10 ** 6
+        local = {}    # fn -> {event index: d_before}
+        for nm, (entry, succ, events) in self.cfgs.items():
+            w = {}
+            for ev in events:
+                if ev[2] == 'def':
+                    w[ev[1]] = w.get(ev[1], 0) + 1
+            din = {entry: 0}
+            work = [entry]
+            while work:
+                b = work.pop()
+                for nx in succ.get(b, []):
+                    nd = din[b] + w.get(b, 0)
+                    if nd < din.get(nx, INF):
+                        din[nx] = nd
+                        work.append(nx)
+            cnt = {}
+            loc = []
+            for ev in events:
+                j = cnt.get(ev[1], 0)
+                loc.append(din.get(ev[1], INF) + j)
+                if ev[2] == 'def':
+                    cnt[ev[1]] = j + 1
+            local[nm] = loc
+        base = {nm: INF for nm in self.cfgs}
+        if '@__vf_thread_entry' in base:
+            base['@__vf_thread_entry'] = 0
+        has_dyn = '@__vf_thread_entry_dyn' in base
+        changed = True
+        while changed:
+            changed = False
+            for nm, (entry, succ, events) in self.cfgs.items():
+                if base[nm] >= INF:
+                    continue
+                for ev, d in zip(events, local[nm]):
+                    if d >= INF:
+                        continue
+                    tg = []
+                    if ev[2] == 'call':
+                        tg = [(ev[3], 0)]
+                    elif ev[2] == 'icall':
+                        tg = [(n, 0) for n in self.cfgs if n in self.addr_taken and self.fsig.get(n) == ev[3]]
+                    elif ev[2] == 'create' and has_dyn:
+                        tg = [('@__vf_thread_entry_dyn', 1)]
+                    for n, extra in tg:
+                        if n in base and base[nm] + d + extra < base[n]:
+                            base[n] = base[nm] + d + extra
+                            changed = True
+        self.dyn_base = min(base.get('@__vf_thread_entry_dyn', 0), INF)
+        out = {}
+        for nm, (entry, succ, events) in self.cfgs.items():
+            for ev, d in zip(events, local[nm]):
+                if ev[0]:
+                    out[(self.cid(nm), ev[0])] = min(base[nm] + d + 1, INF)
+        return out
 
     def prescan_addr_taken(self):
         """functions whose address appears anywhere other than as a direct callee (cheap textual scan)"""
@@ -979,6 +1068,8 @@ class Tr:
         self.co_mem = []
         self.co_extra = []
         self.racy_vals = set()
+        self.events = []
+        self.cur_bl = None
         self.compute_locals(nm, ps, blocks)
         insts = {}
         for b in blocks:
@@ -1026,6 +1117,7 @@ class Tr:
         for bl, _ in blocks:
             code.append('/*HEAD:%s*/' % bl)
             code.append('%s: ;' % self.blabel(bl))
+            self.cur_bl = bl
             for ins in insts[bl]:
                 if ins[0] == 'phi':
                     continue
@@ -1062,7 +1154,8 @@ class Tr:
             fields += ['  ' + m for m in self.co_mem]
             fields += ['  ' + m for m in self.co_extra]
             self.frames.append('struct FR_%s {\n%s\n};\nstruct FR_%s fr_%s[%s];' % (fn, '\n'.join(fields), fn, fn, self.nthr_macro))
-            sw = '  switch (F->pc) { case 0: break; ' + ' '.join('case %d: goto R%d;' % (k, k) for k in range(1, self.resume + 1)) + ' default: __vf_bad_icall(); }'
+            self.cfgs[nm] = (blocks[0][0] if blocks else None, succ, list(self.events))
+            sw = '  switch (F->pc) { case 0: break; ' + ' '.join('case %d: /*DIST:%s:%d*/ goto R%d;' % (k, fn, k, k) for k in range(1, self.resume + 1)) + ' default: __vf_bad_icall(); }'
             return 'int %s_co(void) {\n  struct FR_%s *F = &fr_%s[__vf_cur];\n%s\n%s\n%s\n}\n' % (fn, fn, fn, '\n'.join(ldecl), sw, '\n'.join('  ' + c for c in code))
         sig = '%s %s(%s)' % (self.ctype(rt), self.cid(nm), ', '.join('%s %s' % (self.ctype(t), self.lname(a)) for t, a in ps) or 'void')
         return sig + ' {\n' + '\n'.join(decl) + '\n' + '\n'.join('  ' + c for c in code) + '\n}\n'
@@ -1587,6 +1680,7 @@ class Tr:
                     raise NotImplementedError('yield primitive in non-co function')
                 self.resume += 1
                 k_ = self.resume
+                self.events.append((k_, self.cur_bl, 'def', None))
                 pn = self.cid(callee)
                 return pre + ['%s_pre(%s); F->pc = %d; return 1; R%d: ; %s_post(%s);' % (pn, ', '.join(av), k_, k_, pn, ', '.join(av))]
             if direct and callee in self.co:
@@ -1596,6 +1690,7 @@ class Tr:
                 gf = next(f for f in self.funcs if f[0] == callee)
                 self.resume += 1
                 k_ = self.resume
+                self.events.append((k_, self.cur_bl, 'call', callee))
                 st = pre + ['fr_%s[__vf_cur].pc = 0;' % g] + ['fr_%s[__vf_cur].v_%s = %s;' % (g, self.cid(pa), a) for (pt, pa), a in zip(gf[2], av)]
                 st.append('R%d: ; if (%s_co()) { F->pc = %d; return 1; }' % (k_, g, k_))
                 if d and rt[0] != 'void':
@@ -1615,7 +1710,16 @@ class Tr:
                 if callee == '@__vf_reach':
                     return pre + ['__CPROVER_assert(0, "REACH: %s");' % msg(av[0])]
                 return pre + ['__CPROVER_assume(%s);' % av[0]]
+            if direct and self.static_new and callee in ('@_Znwm', '@_Znam') and re.fullmatch(r'\d+ULL', av[0]):
+                # one static buffer per allocation site (at most one live object per site, BOUND-asserted): no dynamic objects,
+                # pointer value sets do not grow with the number of scheduler steps
+                self.snew.append(int(av[0][:-3]))
+                return pre + ['%s = __vf_snew_%d();' % (L(d), len(self.snew) - 1)]
+            if direct and self.static_new and callee in ('@_ZdlPv', '@_ZdaPv', '@_ZdlPvm'):
+                return pre + ['__vf_sdel(%s);' % av[0]]
             if direct:
+                if callee == '@__vf_thread_create' and self.cur_co:
+                    self.events.append((0, self.cur_bl, 'create', None))
                 if callee not in self.defined and callee not in self.decls:
                     raise NotImplementedError('call of unknown ' + callee)
                 e = '%s(%s)' % (self.cid(callee), ', '.join(av))
@@ -1625,6 +1729,7 @@ class Tr:
                 if self.cur_co:
                     self.resume += 1
                     rk = self.resume
+                    self.events.append((rk, self.cur_bl, 'icall', self.nsig(sig[0], sig[1])))
                     self.co_extra.append('int ic%d;' % rk)
                 self.icalls.append((sig, d, callee, av, self.cur_co, rk, L(d) if d else None, self.cur_fn))
                 return pre + ['/*ICALL%d*/' % (len(self.icalls) - 1)]
@@ -1639,6 +1744,7 @@ class Tr:
             return []
         self.resume += 1
         k_ = self.resume
+        self.events.append((k_, self.cur_bl, 'def', None))
         return ['__vf_racy_pre(%s); F->pc = %d; return 1; R%d: ; __vf_racy_post(%s);' % (a, k_, k_, a)]
 
     def intrinsic(self, d, rt, callee, args):
